@@ -54,10 +54,10 @@ def check_exact(case, rec):
     nH = max(np.linalg.norm(Hd, 2), 1e-3)
     dt = dt_of(case, nH)
     steps = case['steps']
+    # enough iterations = the largest local dimension the sweep can meet; the bonds of a complete manifold cannot grow
+    # (an iteration count far above the vector length makes scipy's eigh_tridiagonal fail on the huge tridiagonal matrix:
+    # that is outside "Krylov dimension covers the local problem" and was a generator error of an earlier version)
     iters = max_local_dim(psi, two) + 2
-    if two:
-        # bonds can grow during two-site sweeps up to d * neighbour; be generous
-        iters = max(iters, d * d * max(psi.bond_dims) ** 2 + 2)
     ref = expm(-dt * steps * Hd) @ (v0 / n0)
     if two:
         ret = ptn.integrate_local_twosite(H, psi, dt, steps, numiter_lanczos=iters, tol_split=0)
